@@ -398,13 +398,12 @@ def make_items(ctx):
                 main_items.append(flow_item(n, 1, 2 if (j + r + sd) % 2 == 0 else None, r == 0, rng))
         main_items.append(spec_item(rng, 1, ()))
         main_items.append(spec_item(rng, 1, (1,)))
-        # planar layers trained far from their 0.01-scale initialisation (|w| of order 1: the invertibility constraint on u is then active;
-        # seeded change C04g divided by |w| instead of |w|^2 there), both activations
-        main_items.append(flow_item("planar", 1, None, bool((sd + 1) % 2), rng, scale=1.5))
-        main_items.append(flow_item("planar-leaky" if "planar-leaky" in ds.FACTORIES else "planar", 1, 2 if sd % 2 else None, bool(sd % 2), rng, scale=1.2))
+        # planar layers far from their 0.01-scale initialisation (|w| of order 1: the invertibility constraint on u is then active; seeded change
+        # C04g divided by |w| instead of |w|^2 there): ONE hand-set extreme layer composed with a benign one (two extreme layers give spikes
+        # narrower than the quadrature panels resolve - a false alarm of the sweep with seed 7919), both activations
         for ns in (None, 0.5):
-            wv, uv = [(0.4, -14.0), (2.0, 1.0), (0.5, -9.0), (3.0, -2.5)][int(rng.integers(0, 4))], [(0.3, -20.0), (1.5, -3.0)][int(rng.integers(0, 2))]
-            main_items.append(dict(kind="planar-set", dim=1, cond=None, params=[[wv[0], wv[1], 0.5], [uv[0], uv[1], -0.3]], negative_slope=ns, invert=True if ns is None else bool(rng.integers(0, 2)),
+            wv = [(0.4, -14.0), (2.0, 1.0), (0.5, -9.0), (3.0, -2.5), (0.3, -20.0), (1.5, -3.0), (0.25, -8.0)][int(rng.integers(0, 7))]
+            main_items.append(dict(kind="planar-set", dim=1, cond=None, params=[[wv[0], wv[1], 0.5], [1.0, 0.5, -0.3]], negative_slope=ns, invert=True if ns is None else bool(rng.integers(0, 2)),
                                    factory_key=int(rng.integers(0, 2**31)), sample_key=int(rng.integers(0, 2**31)), ks=ns is not None))  # tanh planar: no analytic inverse, density only
         main_items.append(dict(kind="bcast", dim=2, variant=int(rng.integers(0, 6)), perturb_seed=int(rng.integers(0, 2**31)), sample_key=int(rng.integers(0, 2**31)), ks=True))
         two = [("coupling", None, True), ("maf-rqs", None, False), ("triangular-spline", 2, True), ("planar", None, False), ("maf-affine", 2, True)]
@@ -428,6 +427,10 @@ def make_items(ctx):
             main_items.append(spec_item(rng, 1, [(), (1,)][i % 2]))
         for i in range(4):
             main_items.append(spec_item(rng, 2, (2,)))
+        for ns in (None, 0.5):
+            for wv in [(0.4, -14.0), (2.0, 1.0), (0.5, -9.0), (3.0, -2.5), (0.3, -20.0), (1.5, -3.0), (0.25, -8.0)]:
+                main_items.append(dict(kind="planar-set", dim=1, cond=None, params=[[wv[0], wv[1], 0.5], [1.0, 0.5, -0.3]], negative_slope=ns, invert=True if ns is None else bool(rng.integers(0, 2)),
+                                       factory_key=int(rng.integers(0, 2**31)), sample_key=int(rng.integers(0, 2**31)), ks=ns is not None))
         for v in range(6):
             main_items.append(dict(kind="bcast", dim=2, variant=v, perturb_seed=int(rng.integers(0, 2**31)), sample_key=int(rng.integers(0, 2**31)), ks=True))
         bnaf_items.append(flow_item("bnaf", 2, None, True, rng, scale=0.2, ks=False))
